@@ -31,6 +31,8 @@ def run(tier, seed):
     core.run_jobs(jobs)
     for j in jobs:
         res.absorb(j)
+    # E4: coverage-guided campaign (scalar code path, clang + ASan) with the same digit / recomposition oracle inside the target
+    core.run_fuzz(res, "fz_c12", 12 if tier == "quick" else 600, 2 if tier == "quick" else 6, seed, "C12")
     res.exhaustive = True
     res.rule = ("E2: every 32-bit value for the layouts (l,Bgbit) in %s on the AVX2 (optim) and scalar (debug) builds, N=1024 lanes with a rotating "
                 "lane assignment; oracle = digits in [-Bg/2,Bg/2) and 0 <= x - sum d_p 2^(32-p Bgbit) < 2^(32-l Bgbit) (this representation is unique, so "
@@ -38,6 +40,7 @@ def run(tier, seed):
                 "N = 8..128 step 8 and {256,512,1024}, boundary-biased contents (k*2^(32-p Bgbit) - offset +- {0,1}, extremes), lane-independence "
                 "(same value in two lanes with different neighbours), TLWE wrapper k in {1,2}; input and every result array are harness-owned "
                 "guard-page buffers (PROT_NONE page flush after or before the array, canaries in the slack) because the AVX2 path is inline assembly. "
+                "E4: libFuzzer target fz_c12 (bytes -> layout, ring size, content descriptor or explicit lane value; same oracle, traps on violation). "
                 "Non-trivial = value whose shifted form is within one unit of a digit boundary, or l*Bgbit=32, or boundary-biased content / lane test; "
                 "sweep counts are distinct by construction." % (layouts,))
     res.assumptions = ["N restricted to multiples of 8: the routine is only ever called with the ring degree (vector width 8)"]
